@@ -45,8 +45,8 @@ pub struct C06 {
 // alphabet
 // ---------------------------------------------------------------------------------------------------
 
-pub const KINDS: [&str; 6] = ["cw-rect", "ccw-rect", "L", "triangle", "box", "path"];
-const KIND_TAGS: [&str; 8] = ["kind:cw-rect", "kind:ccw-rect", "kind:L", "kind:triangle", "kind:box", "kind:path", "kind:all", "kind:diagonal-path"];
+pub const KINDS: [&str; 7] = ["cw-rect", "ccw-rect", "L", "triangle", "box", "path", "right-trapezoid"];
+const KIND_TAGS: [&str; 9] = ["kind:cw-rect", "kind:ccw-rect", "kind:L", "kind:triangle", "kind:box", "kind:path", "kind:right-trapezoid", "kind:all", "kind:diagonal-path"];
 const ORIENT_TAGS_S: [&str; 8] = ["sref:R0", "sref:R90", "sref:R180", "sref:R270", "sref:MX", "sref:MX-R90", "sref:MX-R180", "sref:MX-R270"];
 const ORIENT_TAGS_A: [&str; 8] = ["aref:R0", "aref:R90", "aref:R180", "aref:R270", "aref:MX", "aref:MX-R90", "aref:MX-R180", "aref:MX-R270"];
 const LATTICE_TAGS: [&str; 5] = ["lattice:axis", "lattice:rotated-with-angle", "lattice:negative-pitch", "lattice:skew", "lattice:cols-along-y"];
@@ -65,7 +65,7 @@ fn closed(pts: &[(i32, i32)], off: (i32, i32)) -> Vec<GdsPoint> {
     v
 }
 
-/// leaf shape `kind` (index into KINDS; 7 = diagonal path) on (layer, datatype), shifted by `off`
+/// leaf shape `kind` (index into KINDS; 8 = diagonal path) on (layer, datatype), shifted by `off`
 fn shape_elem(kind: usize, layer: i16, dt: i16, off: (i32, i32)) -> GdsElement {
     match kind {
         0 => GdsBoundary { layer, datatype: dt, xy: closed(&[(10, 5), (10, 25), (40, 25), (40, 5)], off), ..Default::default() }.into(),
@@ -77,7 +77,9 @@ fn shape_elem(kind: usize, layer: i16, dt: i16, off: (i32, i32)) -> GdsElement {
             GdsBox { layer, boxtype: dt, xy: [v[0].clone(), v[1].clone(), v[2].clone(), v[3].clone(), v[4].clone()], ..Default::default() }.into()
         }
         5 => GdsPath { layer, datatype: dt, width: Some(4), xy: [(10, 5), (50, 5), (50, 35)].iter().map(|p| gp((p.0 + off.0, p.1 + off.1))).collect(), ..Default::default() }.into(),
-        7 => GdsPath { layer, datatype: dt, width: Some(4), xy: [(10, 5), (40, 35)].iter().map(|p| gp((p.0 + off.0, p.1 + off.1))).collect(), ..Default::default() }.into(),
+        // a 4-vertex boundary that is NOT a rectangle: three of its four sides are axis-parallel
+        6 => GdsBoundary { layer, datatype: dt, xy: closed(&[(10, 5), (40, 5), (40, 25), (20, 25)], off), ..Default::default() }.into(),
+        8 => GdsPath { layer, datatype: dt, width: Some(4), xy: [(10, 5), (40, 35)].iter().map(|p| gp((p.0 + off.0, p.1 + off.1))).collect(), ..Default::default() }.into(),
         _ => panic!("MACHINERY: C06 bad shape kind {kind}"),
     }
 }
@@ -91,6 +93,8 @@ fn label_points(kind: usize) -> [(i32, i32); 5] {
         3 => [(20, 15), (40, 25), (70, 5), (41, 25), (1000, 1000)],
         // path width 4: centre line; side of the first segment; corner of the first segment's rectangle; w/2+1 off
         5 => [(30, 5), (30, 7), (10, 3), (30, 8), (1000, 1000)],
+        // right trapezoid: (15,15) is on the slanted side from (20,25) to (10,5), (14,15) one unit left of it
+        6 => [(30, 15), (15, 15), (20, 25), (14, 15), (1000, 1000)],
         _ => panic!("MACHINERY: C06 no label points for kind {kind}"),
     }
 }
@@ -188,8 +192,8 @@ fn gen_ref(c: &mut Chooser, target: &str, allow_big: bool, tags: &mut Vec<&'stat
 }
 
 fn leaf_content(content: usize, elems: &mut Vec<GdsElement>) {
-    if content == 6 {
-        for k in 0..6 {
+    if content == 7 {
+        for k in 0..7 {
             elems.push(shape_elem(k, 1 + k as i16, 11 + k as i16, (200 * k as i32, 0)));
         }
     } else {
@@ -220,14 +224,14 @@ impl C06 {
         let content = if large {
             0
         } else if deep {
-            [0usize, 6][c.free(2, "leaf-content")]
+            [0usize, 7][c.free(2, "leaf-content")]
         } else {
-            c.free(7, "leaf-content")
+            c.free(8, "leaf-content")
         };
         tags.push(KIND_TAGS[content]);
         leaf_content(content, &mut structs[d - 1].elems);
         // optional label inside the leaf's shape (nets are judged per un-flattened cell)
-        if content < 6 && c.cost(2, "leaf-label") == 1 {
+        if content < 7 && c.cost(2, "leaf-label") == 1 {
             structs[d - 1].elems.push(text(7, "LeafNet", label_points(content)[0]));
             tags.push("hier:leaf-label");
         }
@@ -241,8 +245,7 @@ impl C06 {
 
     fn gen_label(&self, _t: Tier, c: &mut Chooser) -> Case {
         let mut tags: Vec<&'static str> = vec![];
-        let kinds = [0usize, 1, 2, 3, 4, 5];
-        let kind = kinds[c.free(6, "shape-kind")];
+        let kind = c.free(7, "shape-kind");
         tags.push(KIND_TAGS[kind]);
         let pos = c.free(5, "label-position");
         tags.push(POS_TAGS[pos]);
@@ -268,8 +271,8 @@ impl C06 {
         }
         if diag {
             // a diagonal path far away from every label, on the labels' layer
-            shapes.push(shape_elem(7, label_layer, 5, (5000, 5000)));
-            tags.push(KIND_TAGS[7]);
+            shapes.push(shape_elem(8, label_layer, 5, (5000, 5000)));
+            tags.push(KIND_TAGS[8]);
         }
         let main = text(label_layer, strings.0, pts[pos]);
         let mut labels: Vec<GdsElement> = vec![];
@@ -662,12 +665,12 @@ impl CaseDriver for C06 {
     fn describe(&self, tier: Tier) -> Describe {
         let rule = match self.part {
             Part::Hier => format!(
-                "GDS libraries of 1..3 levels (chain top -> ... -> leaf, optionally the top also placing the leaf), structs listed in every order; each reference SREF or AREF x all 8 Manhattan orientations (free); leaf content = one of {KINDS:?} or all six together (free); costed (deviation bound {}): STRANS spelling (absent / explicit Some(0.0) / present-but-default), offsets {LOCS:?}, array cols x rows in {{1,2,3}}^2, lattice (axis-parallel, rotated with the angle, negative pitch, skewed, columns along y), large arrays 181x181 / 200x200 / 1x32767 / 32767x1 (two-level libraries only), a label inside the leaf shape. Non-trivial = has at least one reference.",
+                "GDS libraries of 1..3 levels (chain top -> ... -> leaf, optionally the top also placing the leaf), structs listed in every order; each reference SREF or AREF x all 8 Manhattan orientations (free); leaf content = one of {KINDS:?} or all seven together (free); costed (deviation bound {}): STRANS spelling (absent / explicit Some(0.0) / present-but-default), offsets {LOCS:?}, array cols x rows in {{1,2,3}}^2, lattice (axis-parallel, rotated with the angle, negative pitch, skewed, columns along y), large arrays 181x181 / 200x200 / 1x32767 / 32767x1 (two-level libraries only), a label inside the leaf shape. Non-trivial = has at least one reference.",
                 self.bound(tier)
             ),
-            Part::Deep => "4-level chains, structs in every one of the 24 listing orders, every reference SREF or AREF x 8 orientations (free), leaf content CW rectangle or all six kinds; the costed alphabet of [hier] with deviation bound 1.".into(),
+            Part::Deep => "4-level chains, structs in every one of the 24 listing orders, every reference SREF or AREF x 8 orientations (free), leaf content CW rectangle or all seven kinds; the costed alphabet of [hier] with deviation bound 1.".into(),
             Part::Label => format!(
-                "one cell: shape kind (6) x label position {{inside, on an edge, on a vertex, just outside, far outside}} x label on the same / another layer x second shape {{none, same layer overlapping, other layer, same layer other datatype}} x second label {{none, same point listed before, same point listed after, inside with another string}} (all free); costed (bound {}): strings (mixed / upper / single-letter case pairs), element order (shapes first, labels first, interleaved), a diagonal path on the labels' layer. Non-trivial = every case (each has a label).",
+                "one cell: shape kind (7) x label position {{inside, on an edge, on a vertex, just outside, far outside}} x label on the same / another layer x second shape {{none, same layer overlapping, other layer, same layer other datatype}} x second label {{none, same point listed before, same point listed after, inside with another string}} (all free); costed (bound {}): strings (mixed / upper / single-letter case pairs), element order (shapes first, labels first, interleaved), a diagonal path on the labels' layer. Non-trivial = every case (each has a label).",
                 self.bound(tier)
             ),
             Part::Mal => "malformed libraries: dangling SREF / AREF, self-reference by SREF / AREF, 2-cycle, 3-cycle (through an AREF), cols = 0, rows = 0, boundary with empty xy, path with empty xy (required outcome: Err), plus boundary not closed, path without width, SREF abs_mag, AREF abs_angle (Err expected and the only outcome judged); each as the whole library and below a well-formed top cell; every listing order (quick: cyclic libraries in every rotation).".into(),
@@ -851,7 +854,7 @@ impl CaseDriver for C06 {
     fn guards(&self, tier: Tier, stats: &Stats, _distinct: u64) -> Result<(), String> {
         match self.part {
             Part::Hier => {
-                require_tags(stats, &KIND_TAGS[..7])?;
+                require_tags(stats, &KIND_TAGS[..8])?;
                 require_tags(stats, &ORIENT_TAGS_S)?;
                 require_tags(stats, &ORIENT_TAGS_A)?;
                 require_tags(stats, &LATTICE_TAGS)?;
@@ -868,7 +871,7 @@ impl CaseDriver for C06 {
             Part::Deep => require_tags(stats, &["levels:4"])?,
             Part::Label => {
                 require_tags(stats, &POS_TAGS)?;
-                require_tags(stats, &["label:other-layer", "label:same-layer", "shape2:same-layer-overlapping", "label2:same-point-listed-before", "label2:inside-other-string", "order:labels-first", "order:interleaved", "ref:label-names-a-net", "ref:label-becomes-annotation", KIND_TAGS[7]])?;
+                require_tags(stats, &["label:other-layer", "label:same-layer", "shape2:same-layer-overlapping", "label2:same-point-listed-before", "label2:inside-other-string", "order:labels-first", "order:interleaved", "ref:label-names-a-net", "ref:label-becomes-annotation", KIND_TAGS[8]])?;
             }
             Part::Mal => {
                 require_tags(
